@@ -207,6 +207,7 @@ Example C01_program_nonvacuous :
             SGet (RLit (LStr "a")); SPrintln (Some (RReg R_HUE)); SSet OpDefault;
             SAssign "who" (RCall "pick" [RLit (LStr "g")]); SPrintln (Some (RVar "who"));
             SPrintln (Some (RExpr (EBin BAdd (ECall "fact" [RLit (LInt 5)]) (ENeg (ECall "round" [RVar "total"])))));
+            SPrintf "{} of {total} at {hue}, {}" [RVar "x"; RExpr (EBin BMul (EVar "total") (ELit (LInt 2)))];
             SAssign "r" (RCall "round" [RVar "total"]); SPrintln (Some (RCall "floor" [RExpr (EBin BDiv (EVar "total") (ELit (LInt 2)))]));
             SReg R_HUE (RCall "sq" [RVar "total"]); SPrint (Some (RCall "sq" [RExpr (EBin BSub (EVar "total") (ELit (LInt 7)))]));
             SPrintln (Some (RVar "total"))] in
